@@ -327,6 +327,13 @@ def check(tier: str, seed: int, t0: float, build: core.BuildStatus) -> int:
             unsupported += 1
         real = [d for d in r.diffs if d[1] not in ("value-only(C01)", "does-not-compile(C02)")]
         value_only += sum(1 for d in r.diffs if d[1] == "value-only(C01)")
+        if real:
+            from . import c01 as _c01
+            if _c01.classify(src) == "c01:agg-summand-outer-only":
+                # an aggregate whose summand ignores its own element has the WRONG VALUE (known finding of C01 / C02: the update is
+                # emitted outside the inner loop); which element then passes a filter follows from that value - left to C01
+                value_only += len(real)
+                real = []
         for d in r.diffs:
             if d[1] == "does-not-compile(C02)":
                 not_compilable.append({"backend": backend, "query": src, "what": d[2]})
